@@ -1197,7 +1197,13 @@ impl OpLogRecord {
     }
 
     pub fn to_key(&self) -> String {
-        format!("{}_{}", self.db, self.key)
+        match self.opp {
+            // Create db and snapshot records are written with the fixed key ids 1 and 2, they are
+            // not operations of the keys that happen to have those ids
+            ReplicateOpp::CreateDb => format!("{}_create_db", self.db),
+            ReplicateOpp::Snapshot => format!("{}_snapshot", self.db),
+            _ => format!("{}_{}", self.db, self.key),
+        }
     }
 
     pub fn to_string(&self) -> String {
